@@ -269,7 +269,8 @@ func check(prop, tier string) int {
 					MaxRuns: envInt("VERIF_MAX_RUNS", 0)}
 				var env []string
 				if u.Race {
-					env = append(env, "GORACE=halt_on_error=0 log_path="+sp.Out+".race")
+					sp.RaceLog = sp.Out + ".race"
+					env = append(env, "GORACE=halt_on_error=0 log_path="+sp.RaceLog)
 				}
 				res[i] = runChild(bin, sp, ub+ub/2+120*time.Second, env...)
 			}(i)
@@ -360,7 +361,7 @@ func check(prop, tier string) int {
 		}
 		violations++
 		fmt.Printf("VIOLATION property=%s replay=%s\n", prop, path)
-		fmt.Printf("  signature: %s\n  detail: %s\n  unit=%s seed=%d run=%d tape %d -> %d values, seen %d times\n", e.f.Sig, e.f.V.Detail, e.u.Name, e.f.Seed, e.f.Run, e.f.OrigLen, len(e.f.Tape), e.f.Count)
+		fmt.Printf("  signature: %s\n  detail: %s\n  unit=%s seed=%d run=%d tape %d -> %d values, seen %d times\n", e.f.Sig, firstLines(e.f.V.Detail, 14), e.u.Name, e.f.Seed, e.f.Run, e.f.OrigLen, len(e.f.Tape), e.f.Count)
 		vlist = append(vlist, map[string]any{"signature": e.f.Sig, "known": false, "count": e.f.Count, "unit": e.u.Name, "replay": path})
 	}
 	wall := time.Since(start).Seconds()
@@ -418,6 +419,14 @@ func check(prop, tier string) int {
 	return 0
 }
 
+func firstLines(s string, n int) string {
+	l := strings.Split(s, "\n")
+	if len(l) > n {
+		l = append(l[:n], "    ... (full text in the replay file)")
+	}
+	return strings.Join(l, "\n")
+}
+
 func sum(m map[string]int) int {
 	n := 0
 	for _, v := range m {
@@ -454,7 +463,8 @@ func replay(path string) int {
 	sp := sim.Spec{Sim: u.Sim, Prop: rf.Property, Mode: "replay", Tier: rf.Tier, Tape: rf.Tape, Out: filepath.Join(scratch, "r.json"), Race: u.Race, Procs: u.Procs}
 	var env []string
 	if u.Race {
-		env = append(env, "GORACE=halt_on_error=0 log_path="+sp.Out+".race")
+		sp.RaceLog = sp.Out + ".race"
+		env = append(env, "GORACE=halt_on_error=0 log_path="+sp.RaceLog)
 	}
 	r := runChild(bin, sp, 120*time.Second, env...)
 	if r.err != nil {
@@ -525,7 +535,8 @@ func selftest(which []string) int {
 							Out: filepath.Join(scratch, fmt.Sprintf("%s-%d-%d", u.Name, ci, k)), Procs: cf.procs, Race: u.Race}
 						var env []string
 						if u.Race {
-							env = append(env, "GORACE=halt_on_error=0 log_path="+sp.Out+".race")
+							sp.RaceLog = sp.Out + ".race"
+							env = append(env, "GORACE=halt_on_error=0 log_path="+sp.RaceLog)
 						}
 						r := runChild(bin, sp, 600*time.Second, env...)
 						errs[k] = r.err
